@@ -76,7 +76,8 @@ _LIFE_NOTE = ("trusted: TLC; the projection package (encoding/pem + encoding/asn
               "(logical clock, fault plan). Bounded: 3 entities (chain / star / two roots), 2-3 content values, environment steps <= 2 (quick) / 3 "
               "(thorough) + seeded random histories of length 10-12 on the real code; the wider alphabets add a shared profile file (EditProfile), expiry "
               "(Expire + generate-expired), edits of the issuer relation (SetIssuer) and configurations deleted / put back (RemoveConfig, AddConfig; "
-              "a dangling issuer is refused). Histories of any length are covered in the design model only (TLC simulation of the unbounded model), "
+              "a dangling issuer is refused), the profile file deleted / put back (RemoveProfile, AddProfile) and the profile reference of an "
+              "entity written in / taken out (SetProfile). Histories of any length are covered in the design model only (TLC simulation of the unbounded model), "
               "not on the code.")
 CHECKS["C10"] = {
     "engine": "tlc-spec", "category": "model_checking", "design_ref": "6/C10, 3 (Repo.tla), A.4",
